@@ -892,9 +892,17 @@ class Session(object):
             self.excluded = True
             return None
         src, exp = pm.build_doc(items)
-        box, err = render_doc(src, rname, "J")
+        # the same parsed document may be rendered again (by either renderer) instead of a fresh parse
+        parsed = None
+        last = getattr(self, "last", None)
+        if op.get("reuse") and last is not None and last[0] == op["doc"] % len(self.cfg["docs"]):
+            parsed = last[1]
+            parsed.config["general"]["renderer"] = rname
+            self.features.add("save-renders-the-previous-document-object")
+        box, err = render_doc(src, rname, "J", document=parsed)
         if err is not None:
             return render_failure(box, err, self.state, rname, self.features)
+        self.last = (op["doc"] % len(self.cfg["docs"]), box.get("document"))
         bad = pm.check_capture(exp, box["cap"])
         if bad is not None:
             return fail(bad[0], dict(bad[1], renderer=rname))
@@ -971,12 +979,12 @@ class Machine(HistoryMachine):
 
     @rule(kind=st.sampled_from(["save", "corrupt", "restore", "save", "corrupt", "restore", "save",
                                 "remove", "save", "corrupt", "restore"]),
-          doc=st.integers(0, 2), r=renderer_st, fault=fault_st(XK))
-    def step(self, kind, doc, r, fault):
+          doc=st.integers(0, 2), r=renderer_st, fault=fault_st(XK), reuse=st.booleans())
+    def step(self, kind, doc, r, fault, reuse):
         if kind == "corrupt" and self.sess is not None and self.sess.state[0] == "missing":
             kind = "save"                     # nothing to corrupt yet
         if kind == "save":
-            self.do({"op": "save", "doc": doc, "r": r})
+            self.do({"op": "save", "doc": doc, "r": r, "reuse": reuse})
         elif kind == "corrupt":
             self.do({"op": "corrupt", "fault": fault, "r": r})
         elif kind == "restore":
@@ -1005,7 +1013,8 @@ RULE_CO = ("label sets of 0-8 (12) objects, 4-16 faults per case: truncation, bi
            "(empty, text, junk, pickles of list/None/str, renderer entry list/None/str/int, protocol 0/2, two "
            "pickles, extra renderer key, unknown/known macroName, non-dict label entry, missing file). "
            "Non-trivial: >=1 fault leaves a loadable pickle.")
-RULE_HI = ("state machine, <=10 steps over one J.paux shared by HTML5 and XHTML: save(doc_i, r) = full render, "
+RULE_HI = ("state machine, <=10 steps over one J.paux shared by HTML5 and XHTML: save(doc_i, r) = full render (of a "
+           "fresh parse or of the document object the previous save rendered), "
            "corrupt(fault as in 'corrupt'), restore(r) on a fresh document outside the renderer, remove. "
            "Non-trivial: >=2 saves and (a save into an intact file holding the other renderer's entry, or a "
            "corruption that leaves a loadable file).")
